@@ -1,6 +1,6 @@
 //! C19: k-mer indexing and chaining are exact (oracle: brute force over small inputs)
 use crate::util::*;
-use bio::alignment::sparse::{find_kmer_matches, lcskpp};
+use bio::alignment::sparse::{find_kmer_matches, lcskpp, sdpkpp, sdpkpp_union_lcskpp_path};
 use bio::alphabets::{Alphabet, RankTransform};
 use bio::data_structures::qgram_index::QGramIndex;
 
@@ -97,7 +97,44 @@ fn check_chain(s1: &[u8], s2: &[u8], k: usize) -> Result<(), String> {
     }).and_then(|r| r)
 }
 
+fn valid_step(a: (u32, u32), b: (u32, u32), k: u32) -> bool {
+    (b.0 == a.0 + 1 && b.1 == a.1 + 1) || (b.0 >= a.0 + k && b.1 >= a.1 + k)
+}
+/// lcskpp / sdpkpp / union on an arbitrary sorted match list (not necessarily all k-mer matches of two sequences)
+fn check_matches(ms: &[(u32, u32)], k: usize) -> Result<(), String> {
+    let ms = ms.to_vec();
+    guarded(move || {
+        let ku = k as u32;
+        let res = lcskpp(&ms, k);
+        let mut score = 0u32;
+        for w in 0..res.path.len() {
+            if w == 0 { score += ku; continue; }
+            let (p, c) = (ms[res.path[w - 1]], ms[res.path[w]]);
+            if c.0 == p.0 + 1 && c.1 == p.1 + 1 { score += 1; } else if c.0 >= p.0 + ku && c.1 >= p.1 + ku { score += ku; }
+            else { return Err(format!("lcskpp chain step {:?} -> {:?} invalid", p, c)); }
+        }
+        if score != res.score { return Err(format!("lcskpp reports score {}, its path scores {}", res.score, score)); }
+        let n = ms.len();
+        let mut best = vec![0u32; n]; let mut opt = 0;
+        for i in 0..n { best[i] = ku; for j in 0..i { let (p, c) = (ms[j], ms[i]);
+            if c.0 == p.0 + 1 && c.1 == p.1 + 1 { best[i] = best[i].max(best[j] + 1); } else if c.0 >= p.0 + ku && c.1 >= p.1 + ku { best[i] = best[i].max(best[j] + ku); } }
+            opt = opt.max(best[i]); }
+        if res.score != opt { return Err(format!("lcskpp score {} but the best chain over the given matches scores {}", res.score, opt)); }
+        for &(ms_, go, ge) in &[(1u32, 0i32, -1i32), (2, -1, -1), (5, -4, -2)] {
+            let sd = sdpkpp(&ms, k, ms_, go, ge);
+            for w in 1..sd.path.len() { if !valid_step(ms[sd.path[w - 1]], ms[sd.path[w]], ku) { return Err(format!("sdpkpp chain step {:?} -> {:?} invalid", ms[sd.path[w - 1]], ms[sd.path[w]])); } }
+            let un = sdpkpp_union_lcskpp_path(&ms, k, ms_, go, ge);
+            for w in 1..un.len() { if !valid_step(ms[un[w - 1]], ms[un[w]], ku) { return Err(format!("sdpkpp_union_lcskpp_path step {:?} -> {:?} invalid (path {:?})", ms[un[w - 1]], ms[un[w]], un)); } }
+        }
+        Ok(())
+    }).and_then(|r| r)
+}
+
 pub fn run(input: &str) -> Result<(), String> {
+    if let Some(m) = field(input, "matches") {
+        let v = nums(m); let ms: Vec<(u32, u32)> = v.chunks(2).map(|c| (c[0] as u32, c[1] as u32)).collect();
+        return check_matches(&ms, num(input, "k"));
+    }
     if field(input, "s1").is_some() { return check_chain(&unhex(field(input, "s1").unwrap()), &unhex(field(input, "s2").unwrap_or("")), num(input, "k")); }
     let mc = field(input, "max").map(|v| if v == "max" { usize::MAX } else { v.parse().unwrap() }).unwrap_or(usize::MAX);
     check_index(&unhex(field(input, "sym").unwrap_or("")), &unhex(field(input, "text").unwrap_or("")), &unhex(field(input, "pat").unwrap_or("")), num(input, "q") as u32, mc)
@@ -109,6 +146,15 @@ pub fn search(seed: u64, budget: &Budget, thorough: bool) -> (u64, Option<(Strin
     for round in 0..rounds {
         if !budget.left() { break; }
         tried += 1;
+        if round % 4 == 3 {
+            // arbitrary sorted, duplicate-free match lists (filtered / custom lists, not only complete k-mer match sets)
+            let k = 1 + rng.below(4) as usize;
+            let mut ms: Vec<(u32, u32)> = (0..rng.below(9)).map(|_| (rng.below(14) as u32, rng.below(24) as u32)).collect();
+            if rng.below(2) == 0 && !ms.is_empty() { let b = ms[0]; for t in 1..3u32 { ms.push((b.0 + t * k as u32, b.1 + t * k as u32)); ms.push((b.0 + t, b.1 + t)); } }
+            ms.sort(); ms.dedup();
+            if let Err(e) = check_matches(&ms, k) { return (tried, Some((format!("k={} matches={}", k, ms.iter().map(|m| format!("{},{}", m.0, m.1)).collect::<Vec<_>>().join(",")), e))); }
+            continue;
+        }
         if round % 3 != 2 {
             let sym: &[u8] = *rng.pick(&[&b"A"[..], b"AB", b"ABC", b"ACGT", b"ACGTN", b"ABCDEFG"]);
             let q = 1 + rng.below(3) as u32;
